@@ -106,12 +106,12 @@ def handsB (pt : Pt) (st : St) : Bool :=
 def midStates (hf : Nat) : Nat → St → List (Pt × St)
   | 0, _ => []
   | f + 1, st =>
-    match nextPoint hf { st with incoming := [], outgoing := [] } with
-    | some (st1, some pt) =>
-      (pt, st1) :: (match processNextPt hf st with
-                    | some (st', true) => midStates hf f st'
-                    | _ => [])
-    | _ => []
+    (match nextPoint hf { st with incoming := [], outgoing := [] } with
+     | some (st1, some pt) => [(pt, st1)]
+     | _ => []) ++
+    (match processNextPt hf st with
+     | some (st', true) => midStates hf f st'
+     | _ => [])
 
 /-- `handsB` holds after every `next_point` of `monotone_subdivision(ps)` -/
 def ownedSteps (ps : List Poly) : Bool :=
